@@ -22,6 +22,8 @@ ASSUMPTIONS = [
     "element positions: nodes from the mesh model; centres as shipped by the source, else the normalised mean of the corner unit vectors (edge order read from the grid)",
     "ties and radius-boundary elements (within 1e-9) are excluded from set comparison; elements with |lon| within 1e-9 of 180 are treated as ambiguous under the planar (lat, lon) metric",
     "radius sets are judged only where the unit of r is unambiguous in the documentation (ball/spherical with in_radians=False: degrees; kd/spherical with in_radians=True: radians; Cartesian: chord)",
+    "Cartesian trees of sources whose stored x/y/z are not unit length (positions in the source's own length unit) are judged on the stored positions; kinds whose Cartesian positions such a source does not ship are not judged",
+    "query points that are the antipode of an element feed radius queries only (r just short of the whole sphere): k-nearest order from an antipode is decided by rounding",
     "sklearn is the system under test here, never the oracle",
 ]
 COMPONENTS = {
